@@ -15,7 +15,9 @@ namespace C17
 def implPkg : String → String
   | "SHA256" => "crypto/sha256" | "SHA224" => "crypto/sha256"
   | "SHA512" => "crypto/sha512" | "SHA384" => "crypto/sha512"
+  | "SHA512_224" => "crypto/sha512" | "SHA512_256" => "crypto/sha512"
   | "SHA1" => "crypto/sha1" | "MD5" => "crypto/md5"
+  | "SHA3_224" => "crypto/sha3" | "SHA3_256" => "crypto/sha3" | "SHA3_384" => "crypto/sha3" | "SHA3_512" => "crypto/sha3"
   | h => "unknown:" ++ h
 
 def secp : String := "github.com/bytemare/secp256k1"
